@@ -286,6 +286,11 @@ def gen_c17(g, run_seed, tier, opts):
         slot = "A%d" % i
         add({"op": "make", "slot": slot, "recipe": r})
         operands.append((slot, fl))
+    if g.random() < 0.25:  # a second operator built from the very same recipe: equal value, other object
+        slot0, fl0 = g.choice(operands)
+        r0 = [s for s in steps if s.get("slot") == slot0][0]["recipe"]
+        add({"op": "make", "slot": slot0 + "b", "recipe": r0})
+        operands.append((slot0 + "b", fl0))
     calls = []
     algobjs = {}
     for _ in range(cfg["nsteps"]):
@@ -303,8 +308,12 @@ def gen_c17(g, run_seed, tier, opts):
             continue
         if calls and u < cfg["user_p"] + cfg["repeat_p"]:
             base = g.choice(calls)
-            st = {"op": "call", "fn": base["fn"], "args": base["args"], "repeat_of": base["id"]}
+            st = {"op": "call", "fn": base["fn"], "args": dict(base["args"]), "repeat_of": base["id"]}
             slot = base["args"]["A"]["slot"]
+            twin = slot[:-1] if slot.endswith("b") else slot + "b"
+            if twin in dict(operands) and g.random() < 0.4:
+                slot = twin  # same call on the equal-valued twin operator
+                st["args"]["A"] = {"slot": twin}
         else:
             slot, fl = g.choice(operands)
             st, _ = c17_call(g, cfg, slot, fl)
